@@ -2064,6 +2064,16 @@ class BaseInterpreter(Generic[TContext, TEvent]):
                 if regions:
                     await self._enter_states(regions, trigger_event)
 
+    def _note_self_raised(self, event: Any) -> None:
+        """Hook: an event is about to be queued onto this machine by itself.
+
+        The asynchronous engine overrides this to measure (and, when a chain
+        runs away, discard) self-raised events; the default does nothing.
+
+        Args:
+            event (Any): The event about to be sent to `self`.
+        """
+
     def _note_activation(self, state: StateNode) -> None:
         """Counts one more entry of `state` (see `_activation`).
 
@@ -2393,8 +2403,7 @@ class BaseInterpreter(Generic[TContext, TEvent]):
                 #    towards the raise-chain bound: an `onDone` that
                 #    re-completes its own state otherwise fed the run loop
                 #    forever without ever yielding to other tasks.
-                if getattr(self, "_processing", False):
-                    self._raise_depth = getattr(self, "_raise_depth", 0) + 1
+                self._note_self_raised(done_event)
                 await self.send(done_event)
                 fired = True
             ancestor = ancestor.parent
